@@ -804,7 +804,7 @@ Proof.
 Qed.
 
 Lemma pinv_nx lo s n : nx s <= n -> pinv lo s -> pinv lo (st_nx n s).
-Proof. intros H (A & B & C). repeat split; [exact A | exact B | apply st_ok_nx; assumption]. Qed.
+Proof. intros H (A & B & C). split; [exact A|]. split; [exact B | apply st_ok_nx; assumption]. Qed.
 
 Lemma clone_imp_pattern fx lo s imp imp' s' :
   fx_isrc fx = true -> pinv lo s -> lo <= nx s -> clone_imp fx s imp = (imp', s') ->
@@ -812,21 +812,21 @@ Lemma clone_imp_pattern fx lo s imp imp' s' :
   isrc_oids_opt imp' = map (rho s') (isrc_oids_opt imp) /\ (forall k, In k (isrc_oids_opt imp) -> In k (keys s')).
 Proof.
   intros Hfx Hp Hlo. unfold clone_imp. destruct imp as [i|].
-  2:{ intros H. injection H as <- <-. repeat split; [apply Hp.. | apply pext_refl | lia | intros k []]. }
+  2:{ intros H. injection H as <- <-. refine (conj Hp (conj (pext_refl _) (conj (le_n _) (conj eq_refl _)))). intros k []. }
   rewrite Hfx. destruct (lookup (is_oid i) (imap s)) as [i'|] eqn:El.
-  - intros H. injection H as <- <-. repeat split; [apply Hp.. | apply pext_refl | lia | |].
+  - intros H. injection H as <- <-. refine (conj Hp (conj (pext_refl _) (conj (le_n _) (conj _ _)))).
     + cbn. unfold rho. rewrite El. reflexivity.
     + intros k [<-|[]]. eapply lookup_some_in. exact El.
   - cbn. intros H. injection H as <- <-. destruct Hp as (A & B & Cc). pose proof (lookup_none_notin _ _ El) as Hn.
     split; [|split; [|split; [|split]]].
-    + repeat split; unfold keys; cbn.
+    + split; [|split]; unfold keys; cbn.
       * constructor; [exact Hn | exact A].
       * constructor; [|exact B]. intros Hi. apply in_map_iff in Hi. destruct Hi as ([k x] & Ex & Hx). cbn in Ex.
         unfold st_ok in Cc. rewrite Forall_forall in Cc. specialize (Cc _ Hx). cbn in Cc. lia.
       * unfold st_ok. cbn. constructor; [cbn; lia|]. revert Cc. unfold st_ok. apply Forall_impl. intros kv Hk. lia.
     + intros k Hk. unfold keys, rho. cbn. split; [right; exact Hk|]. destruct (Nat.eqb (is_oid i) k) eqn:E; [|reflexivity].
       apply Nat.eqb_eq in E. subst k. contradiction.
-    + lia.
+    + cbn. lia.
     + cbn. unfold rho. cbn. rewrite Nat.eqb_refl. reflexivity.
     + intros k [<-|[]]. unfold keys. cbn. left. reflexivity.
 Qed.
@@ -864,7 +864,7 @@ Proof.
              flat_map comp_imports l' = map (rho z') (flat_map comp_imports l) /\
              (forall k, In k (flat_map comp_imports l) -> In k (keys z'))).
   { induction l as [|k r IHr]; intros z l' z' Hall Hz Hlz; cbn.
-    - intros H. injection H as <- <-. repeat split; [apply Hz.. | apply pext_refl | lia | intros k []].
+    - intros H. injection H as <- <-. refine (conj Hz (conj (pext_refl _) (conj (le_n _) (conj eq_refl _)))). intros k [].
     - destruct (clone_comp fx z k) as [k' z1] eqn:Ek. destruct (clone_comps fx z1 (nx s) r) as [r' z2] eqn:Er.
       intros H. injection H as <- <-. inversion Hall as [|? ? Hk Hr']; subst.
       apply Hk in Ek; [|exact Hfx | exact Hz | exact Hlz]. destruct Ek as (Pk & Xk & Nk & Ik & Kk).
@@ -911,7 +911,7 @@ Proof.
 Qed.
 
 Lemma pinv_st0 lo n : pinv lo (st0 n).
-Proof. repeat split; try constructor. Qed.
+Proof. split; [constructor|]. split; constructor. Qed.
 
 Lemma clone_component_pattern fx n c :
   fx_isrc fx = true -> canon (comp_imports (fst (clone_component fx n c))) = canon (comp_imports c).
@@ -919,4 +919,1092 @@ Proof.
   intros Hfx. unfold clone_component. destruct (clone_comp fx (st0 n) c) as [c' s'] eqn:E. cbn.
   apply (clone_comp_pattern fx n) in E; [|exact Hfx | apply pinv_st0 | cbn; lia]. destruct E as (P & _ & _ & I & K).
   rewrite I. apply canon_map_inj. intros x y Hx Hy. apply (rho_inj n s'); [exact P | apply K; exact Hx | apply K; exact Hy].
+Qed.
+
+(* ------------------------------------------------------------------------------------------ content: models (structure) *)
+
+Lemma clone_comps_content fx C owner l : forall z l' z',
+  fx_order fx = true -> fx_encid fx = true -> coherent C -> imap_ok C z -> incl (flat_map comp_imps l) C -> Forall wf_comp l ->
+  clone_comps fx z owner l = (l', z') -> imap_ok C z' /\ map content_comp l' = map content_comp l.
+Proof.
+  induction l as [|k r IHr]; intros z l' z' Hfo Hfe Hco Hz Hinl Hwl; cbn.
+  - intros H. injection H as <- <-. split; [exact Hz | reflexivity].
+  - destruct (clone_comp fx z k) as [k' z1] eqn:Ek. destruct (clone_comps fx z1 owner r) as [r' z2] eqn:Er.
+    intros H. injection H as <- <-. inversion Hwl as [|? ? Wk Wr]; subst. cbn in Hinl.
+    apply (clone_comp_content fx C) in Ek; [|assumption.. | intros x Hx; apply Hinl; apply in_or_app; left; exact Hx | exact Wk].
+    destruct Ek as [Okk Ck].
+    apply IHr in Er; [|assumption.. | intros x Hx; apply Hinl; apply in_or_app; right; exact Hx | exact Wr].
+    destruct Er as [Okr Cr]. split; [exact Okr|]. cbn. rewrite content_comp_set_parent, Ck, Cr. reflexivity.
+Qed.
+
+Lemma content_units_set_parent p u : content_units (u_set_parent p u) = content_units u.
+Proof. reflexivity. Qed.
+
+Lemma clone_units_list_content fx C owner l : forall z l' z',
+  coherent C -> imap_ok C z -> incl (flat_map (fun u => opt_list (u_imp u)) l) C -> Forall wf_units l ->
+  clone_units_list fx z owner l = (l', z') -> imap_ok C z' /\ map content_units l' = map content_units l.
+Proof.
+  induction l as [|u r IHr]; intros z l' z' Hco Hz Hinl Hwl; cbn.
+  - intros H. injection H as <- <-. split; [exact Hz | reflexivity].
+  - destruct (clone_units_st fx z u) as [u' z1] eqn:Eu. destruct (clone_units_list fx z1 owner r) as [r' z2] eqn:Er.
+    intros H. injection H as <- <-. inversion Hwl as [|? ? Wu Wr]; subst. cbn in Hinl.
+    apply (clone_units_st_content fx C) in Eu; [|assumption.. | | exact Wu].
+    2:{ intros i Ei. apply Hinl. apply in_or_app. left. rewrite Ei. left. reflexivity. }
+    destruct Eu as (Ok1 & Cu & _).
+    apply IHr in Er; [|assumption.. | intros x Hx; apply Hinl; apply in_or_app; right; exact Hx | exact Wr].
+    destruct Er as [Okr Cr]. split; [exact Okr|]. cbn. rewrite content_units_set_parent, Cu, Cr. reflexivity.
+Qed.
+
+(* a map over the variables that keeps what is serialised of a variable, its name and its identity *)
+Definition keeps (f : variable -> variable) : Prop :=
+  forall v, content_variable (f v) = content_variable v /\ v_name (f v) = v_name v /\ v_oid (f v) = v_oid v.
+
+Lemma content_vref_keeps f vars o : keeps f ->
+  content_vref (map (map_var (fun u => u) f) vars) (option_map (map_var (fun u => u) f) o) = content_vref vars o.
+Proof.
+  intros Hk. destruct o as [v|]; [|reflexivity]. cbn. rewrite map_var_idg. destruct (Hk v) as (_ & Hn & Ho). rewrite Hn, Ho.
+  rewrite map_map. erewrite (map_ext _ v_oid); [reflexivity|]. intros a. rewrite map_var_idg. apply Hk.
+Qed.
+
+Lemma content_comp_keeps f c : keeps f -> content_comp (map_comp (fun i => i) (fun u => u) f (fun r => r) (fun c => c) c) = content_comp c.
+Proof.
+  intros Hk. induction c as [o p id name encid math imp impref vars resets kids IH] using component_ind'.
+  rewrite map_comp_unfold. cbn [content_comp]. rewrite option_map_id'.
+  assert (E1 : map content_variable (map (map_var (fun u => u) f) vars) = map content_variable vars).
+  { rewrite map_map. apply map_ext. intros v. rewrite map_var_idg. apply Hk. }
+  assert (E2 : map (content_reset (map (map_var (fun u => u) f) vars)) (map (map_reset (fun u => u) f (fun r => r)) resets)
+               = map (content_reset vars) resets).
+  { rewrite map_map. apply map_ext. intros r. unfold map_reset, content_reset. cbn. rewrite !content_vref_keeps by exact Hk. reflexivity. }
+  assert (E3 : map content_comp (map (map_comp (fun i => i) (fun u => u) f (fun r => r) (fun c => c)) kids) = map content_comp kids).
+  { rewrite map_map. apply map_ext_in. intros k Hk'. rewrite Forall_forall in IH. apply IH. exact Hk'. }
+  rewrite E1, E2, E3. reflexivity.
+Qed.
+
+Lemma comp_imports_map_f f c : comp_imports (map_comp (fun i => i) (fun u => u) f (fun r => r) (fun c => c) c) = comp_imports c.
+Proof.
+  induction c as [o p id name encid math imp impref vars resets kids IH] using component_ind'.
+  rewrite map_comp_unfold. cbn [comp_imports]. rewrite option_map_id'. f_equal.
+  rewrite flat_map_concat_map, map_map, <- flat_map_concat_map. rewrite Forall_forall in IH.
+  induction kids as [|k r IHr]; cbn; [reflexivity|]. rewrite IH by (left; reflexivity). f_equal. apply IHr. intros x Hx. apply IH. right. exact Hx.
+Qed.
+
+Lemma content_model_struct_map_f f m : keeps f ->
+  content_model_struct (map_model (fun i => i) (fun u => u) f (fun r => r) (fun c => c) m) = content_model_struct m.
+Proof.
+  intros Hk. unfold content_model_struct, map_model, model_imports. cbn. rewrite map_id.
+  assert (E1 : map content_comp (map (map_comp (fun i => i) (fun u => u) f (fun r => r) (fun c => c)) (m_comps m)) = map content_comp (m_comps m)).
+  { rewrite map_map. apply map_ext. intros c. apply content_comp_keeps. exact Hk. }
+  assert (E2 : flat_map comp_imports (map (map_comp (fun i => i) (fun u => u) f (fun r => r) (fun c => c)) (m_comps m)) = flat_map comp_imports (m_comps m)).
+  { clear E1. induction (m_comps m) as [|c r IHr]; cbn [flat_map map]; [reflexivity|]. rewrite comp_imports_map_f, IHr. reflexivity. }
+  rewrite E1, E2. reflexivity.
+Qed.
+
+Lemma find_units_name name l u : find_units name l = Some u -> u_name u = name.
+Proof.
+  induction l as [|x r IH]; cbn; [discriminate|]. destruct (String.eqb (u_name x) name) eqn:E.
+  - intros H. injection H as <-. apply String.eqb_eq. exact E.
+  - exact IH.
+Qed.
+
+Lemma keeps_fix_units us cvo : keeps (fix_units_var us cvo).
+Proof.
+  intros v. unfold fix_units_var. destruct (existsb (Nat.eqb (v_oid v)) cvo); [|repeat split].
+  destruct (v_units v) as [u|] eqn:Eu; [|repeat split]. destruct (find_units (u_name u) us) as [u'|] eqn:Ef; [|repeat split].
+  apply find_units_name in Ef. unfold content_variable. cbn. rewrite Eu. cbn. rewrite Ef. repeat split.
+Qed.
+
+Lemma keeps_set_eqs E : keeps (fun v => v_set_eqs (es_get (v_oid v) E) v).
+Proof. intros v. repeat split. Qed.
+
+Definition model_imps (m : model) : list isrc :=
+  flat_map (fun u => opt_list (u_imp u)) (m_units m) ++ flat_map comp_imps (m_comps m).
+
+Definition wf_model (m : model) : Prop :=
+  coherent (model_imps m) /\ Forall wf_units (m_units m) /\ Forall wf_comp (m_comps m).
+
+Lemma clone_units_st_pattern fx lo s u u' s' :
+  fx_isrc fx = true -> pinv lo s -> lo <= nx s -> clone_units_st fx s u = (u', s') ->
+  pinv lo s' /\ pext s s' /\ nx s <= nx s' /\
+  units_isrcs u' = map (rho s') (units_isrcs u) /\ (forall k, In k (units_isrcs u) -> In k (keys s')).
+Proof.
+  intros Hfx Hp Hlo. unfold clone_units_st.
+  destruct (clone_imp fx (st_nx (S (nx s)) s) (u_imp u)) as [imp' s1] eqn:E. intros H. injection H as <- <-.
+  apply (clone_imp_pattern fx lo) in E; [|exact Hfx | apply pinv_nx; [lia | exact Hp] | cbn; lia].
+  destruct E as (P1 & X1 & N1 & I1 & K1). cbn in N1. unfold units_isrcs. cbn.
+  refine (conj P1 (conj X1 (conj _ (conj I1 K1)))). lia.
+Qed.
+
+Lemma clone_units_list_pattern fx lo owner l : forall z l' z',
+  fx_isrc fx = true -> pinv lo z -> lo <= nx z -> clone_units_list fx z owner l = (l', z') ->
+  pinv lo z' /\ pext z z' /\ nx z <= nx z' /\
+  flat_map units_isrcs l' = map (rho z') (flat_map units_isrcs l) /\ (forall k, In k (flat_map units_isrcs l) -> In k (keys z')).
+Proof.
+  induction l as [|u r IHr]; intros z l' z' Hfx Hz Hlz; cbn.
+  - intros H. injection H as <- <-. refine (conj Hz (conj (pext_refl _) (conj (le_n _) (conj eq_refl _)))). intros k [].
+  - destruct (clone_units_st fx z u) as [u' z1] eqn:Eu. destruct (clone_units_list fx z1 owner r) as [r' z2] eqn:Er.
+    intros H. injection H as <- <-.
+    apply (clone_units_st_pattern fx lo) in Eu; [|assumption..]. destruct Eu as (Pk & Xk & Nk & Ik & Kk).
+    apply IHr in Er; [|exact Hfx | exact Pk | lia]. destruct Er as (Pr & Xr & Nr & Ir & Kr).
+    split; [exact Pr|]. split; [eapply pext_trans; eassumption|]. split; [lia|]. split.
+    + cbn. change (units_isrcs (u_set_parent (Some owner) u')) with (units_isrcs u'). rewrite map_app, Ik, Ir. f_equal. symmetry. apply map_rho_pext; assumption.
+    + intros x Hx. apply in_app_or in Hx. destruct Hx as [Hx|Hx]; [apply Xr; apply Kk; exact Hx | apply Kr; exact Hx].
+Qed.
+
+Lemma clone_comps_pattern fx lo owner l : forall z l' z',
+  fx_isrc fx = true -> pinv lo z -> lo <= nx z -> clone_comps fx z owner l = (l', z') ->
+  pinv lo z' /\ pext z z' /\ nx z <= nx z' /\
+  flat_map comp_imports l' = map (rho z') (flat_map comp_imports l) /\ (forall k, In k (flat_map comp_imports l) -> In k (keys z')).
+Proof.
+  induction l as [|k r IHr]; intros z l' z' Hfx Hz Hlz; cbn.
+  - intros H. injection H as <- <-. refine (conj Hz (conj (pext_refl _) (conj (le_n _) (conj eq_refl _)))). intros k [].
+  - destruct (clone_comp fx z k) as [k' z1] eqn:Ek. destruct (clone_comps fx z1 owner r) as [r' z2] eqn:Er.
+    intros H. injection H as <- <-.
+    apply (clone_comp_pattern fx lo) in Ek; [|assumption..]. destruct Ek as (Pk & Xk & Nk & Ik & Kk).
+    apply IHr in Er; [|exact Hfx | exact Pk | lia]. destruct Er as (Pr & Xr & Nr & Ir & Kr).
+    split; [exact Pr|]. split; [eapply pext_trans; eassumption|]. split; [lia|]. split.
+    + cbn. rewrite comp_imports_set_parent, map_app, Ik, Ir. f_equal. symmetry. apply map_rho_pext; assumption.
+    + intros x Hx. apply in_app_or in Hx. destruct Hx as [Hx|Hx]; [apply Xr; apply Kk; exact Hx | apply Kr; exact Hx].
+Qed.
+
+Lemma clone_model_struct fx ext n m m' n' :
+  fx_order fx = true -> fx_encid fx = true -> fx_isrc fx = true -> wf_model m ->
+  clone_model fx ext n m = Some (m', n') -> content_model_struct m' = content_model_struct m.
+Proof.
+  intros Hfo Hfe Hfi (Hco & Hwu & Hwc). unfold clone_model.
+  destruct (clone_units_list fx (st0 (S n)) n (m_units m)) as [us s1] eqn:E1.
+  destruct (clone_comps fx s1 n (m_comps m)) as [cs s2] eqn:E2.
+  destruct (record_model fx ext m) as [em|]; [|discriminate].
+  destruct (apply_map _ em (Some [])) as [E|]; [|discriminate]. intros H. injection H as <- <-.
+  unfold set_eqs. rewrite content_model_struct_map_f by apply keeps_set_eqs.
+  unfold fix_component_units. rewrite content_model_struct_map_f by apply keeps_fix_units.
+  pose proof E1 as Q1. pose proof E2 as Q2.
+  apply (clone_units_list_content fx (model_imps m)) in E1; [|exact Hco | apply imap_ok_st0 | intros x Hx; apply in_or_app; left; exact Hx | exact Hwu].
+  destruct E1 as [Ok1 Cu].
+  apply (clone_comps_content fx (model_imps m)) in E2; [|assumption.. | intros x Hx; apply in_or_app; right; exact Hx | exact Hwc].
+  destruct E2 as [Ok2 Cc].
+  apply (clone_units_list_pattern fx (S n)) in Q1; [|exact Hfi | apply pinv_st0 | cbn; lia]. destruct Q1 as (P1 & X1 & N1 & I1 & K1).
+  apply (clone_comps_pattern fx (S n)) in Q2; [|exact Hfi | exact P1 | cbn in N1; lia]. destruct Q2 as (P2 & X2 & N2 & I2 & K2).
+  unfold content_model_struct. cbn. rewrite Cu, Cc. f_equal.
+  unfold model_imports. cbn. rewrite I1, I2. rewrite <- (map_rho_pext s1 s2 _ X2 K1). rewrite <- map_app.
+  apply canon_map_inj. intros x y Hx Hy. apply (rho_inj (S n) s2); [exact P2 | |].
+  - apply in_app_or in Hx. destruct Hx as [Hx|Hx]; [apply X2; apply K1; exact Hx | apply K2; exact Hx].
+  - apply in_app_or in Hy. destruct Hy as [Hy|Hy]; [apply X2; apply K1; exact Hy | apply K2; exact Hy].
+Qed.
+
+(* ------------------------------------------------------------------------------------------ positions of variables *)
+
+(* the variable reached from a component by an index stack (relative to that component) *)
+Fixpoint walk_c (c : component) (q : path) : option variable :=
+  match q with
+  | [] => None
+  | [j] => nth_error (c_vars c) j
+  | j :: q' => match nth_error (c_kids c) j with Some k => walk_c k q' | None => None end
+  end.
+
+Definition walk_l (cs : list component) (p : path) : option variable :=
+  match p with
+  | [] => None
+  | j :: q => match nth_error cs j with Some c => walk_c c q | None => None end
+  end.
+
+Lemma idx_vars_in pre l : forall i p v,
+  In (p, v) (idx_vars pre i l) <-> exists j, p = pre ++ [i + j] /\ nth_error l j = Some v.
+Proof.
+  induction l as [|x r IH]; intros i p v; cbn.
+  - split; [intros [] | intros (j & _ & H); destruct j; discriminate].
+  - split.
+    + intros [E|H].
+      * injection E as <- <-. exists 0. rewrite Nat.add_0_r. split; reflexivity.
+      * apply IH in H. destruct H as (j & -> & Hj). exists (S j). split; [f_equal; f_equal; lia | exact Hj].
+    + intros ([|j] & -> & Hj); cbn in Hj.
+      * injection Hj as <-. left. rewrite Nat.add_0_r. reflexivity.
+      * right. apply IH. exists j. split; [f_equal; f_equal; lia | exact Hj].
+Qed.
+
+Lemma comp_vars_at_unfold pre o p id name encid math imp impref vars resets kids :
+  comp_vars_at pre (Comp o p id name encid math imp impref vars resets kids) = idx_vars pre 0 vars ++ comps_vars_at pre 0 kids.
+Proof.
+  cbn [comp_vars_at]. f_equal. generalize 0. induction kids as [|k r IH]; intros i; [reflexivity|].
+  cbn [comps_vars_at]. rewrite <- IH. reflexivity.
+Qed.
+
+Lemma comps_vars_at_in pre l : forall i p v,
+  In (p, v) (comps_vars_at pre i l) <-> exists j c, nth_error l j = Some c /\ In (p, v) (comp_vars_at (pre ++ [i + j]) c).
+Proof.
+  induction l as [|x r IH]; intros i p v; cbn [comps_vars_at].
+  - split; [intros [] | intros (j & c & H & _); destruct j; discriminate].
+  - rewrite in_app_iff. split.
+    + intros [H|H].
+      * exists 0, x. rewrite Nat.add_0_r. split; [reflexivity | exact H].
+      * apply IH in H. destruct H as (j & c & Hj & Hin). exists (S j), c. split; [exact Hj|]. replace (i + S j) with (S i + j) by lia. exact Hin.
+    + intros ([|j] & c & Hj & Hin); cbn in Hj.
+      * injection Hj as <-. left. rewrite Nat.add_0_r in Hin. exact Hin.
+      * right. apply IH. exists j, c. split; [exact Hj|]. replace (S i + j) with (i + S j) by lia. exact Hin.
+Qed.
+
+Lemma app_inv_head_path (pre a b : path) : pre ++ a = pre ++ b -> a = b.
+Proof. apply app_inv_head. Qed.
+
+Lemma comp_vars_at_in c : forall pre p v,
+  In (p, v) (comp_vars_at pre c) <-> exists q, p = pre ++ q /\ walk_c c q = Some v.
+Proof.
+  induction c as [o pp id name encid math imp impref vars resets kids IH] using component_ind'.
+  intros pre p v. rewrite comp_vars_at_unfold, in_app_iff. rewrite idx_vars_in, comps_vars_at_in. rewrite Forall_forall in IH. split.
+  - intros [(j & -> & Hj) | (j & c & Hj & Hin)].
+    + exists [j]. split; [reflexivity | exact Hj].
+    + apply (IH c (nth_error_In _ _ Hj)) in Hin. destruct Hin as (q & -> & Hq). cbn in *.
+      exists (j :: q). split; [rewrite <- app_assoc; reflexivity|].
+      destruct q as [|a q']; [discriminate|]. cbn [walk_c c_kids]. rewrite Hj. exact Hq.
+  - intros (q & -> & Hq). destruct q as [|j q]; [discriminate|]. destruct q as [|a q'].
+    + left. exists j. split; [reflexivity | exact Hq].
+    + right. cbn [walk_c c_kids] in Hq. destruct (nth_error kids j) as [c|] eqn:Ej; [|discriminate].
+      exists j, c. split; [exact Ej|]. apply (IH c (nth_error_In _ _ Ej)). exists (a :: q'). split; [rewrite <- app_assoc; reflexivity | exact Hq].
+Qed.
+
+Lemma model_vars_in m p v : In (p, v) (model_vars m) <-> walk_l (m_comps m) p = Some v.
+Proof.
+  unfold model_vars. rewrite comps_vars_at_in. split.
+  - intros (j & c & Hj & Hin). apply comp_vars_at_in in Hin. destruct Hin as (q & -> & Hq). cbn. rewrite Hj. exact Hq.
+  - destruct p as [|j q]; [discriminate|]. cbn. destruct (nth_error (m_comps m) j) as [c|] eqn:Ej; [|discriminate].
+    intros Hq. exists j, c. split; [exact Ej|]. apply comp_vars_at_in. exists q. split; [reflexivity | exact Hq].
+Qed.
+
+(* getVariableLocatedAt finds exactly the variables enumerated by model_vars *)
+Lemma comp_at_walk : forall q cs j v, q <> [] ->
+  (match nth_error cs j with Some c0 => walk_c c0 q | None => None end = Some v) <->
+  (exists c, comp_at cs (removelast (j :: q)) = Some c /\ nth_error (c_vars c) (last (j :: q) 0) = Some v).
+Proof.
+  induction q as [|a q IH]; intros cs j v Hne; [contradiction|]. destruct q as [|b q'].
+  - cbn. destruct (nth_error cs j) as [c0|]; split.
+    + intros H. exists c0. split; [reflexivity | exact H].
+    + intros (c1 & E & H). injection E as <-. exact H.
+    + discriminate.
+    + intros (c1 & E & _). discriminate.
+  - change (removelast (j :: a :: b :: q')) with (j :: removelast (a :: b :: q')).
+    change (last (j :: a :: b :: q') 0) with (last (a :: b :: q') 0).
+    assert (R : removelast (a :: b :: q') <> []) by (cbn; discriminate).
+    destruct (removelast (a :: b :: q')) as [|x y] eqn:ER; [contradiction|]. cbn [comp_at].
+    destruct (nth_error cs j) as [c0|]; [|split; [discriminate | intros (c1 & E & _); discriminate]].
+    change (walk_c c0 (a :: b :: q')) with (match nth_error (c_kids c0) a with Some k => walk_c k (b :: q') | None => None end).
+    rewrite (IH (c_kids c0) a v) by discriminate. rewrite ER. reflexivity.
+Qed.
+
+Lemma var_located_at_walk m p v : var_located_at m p = LVar v <-> walk_l (m_comps m) p = Some v.
+Proof.
+  unfold var_located_at, walk_l. destruct p as [|j q]; [split; discriminate|]. destruct q as [|a q'].
+  - cbn. split; [discriminate|]. destruct (nth_error (m_comps m) j); discriminate.
+  - rewrite (comp_at_walk (a :: q') (m_comps m) j v) by discriminate.
+    destruct (removelast (j :: a :: q')) as [|x y] eqn:ER; [cbn in ER; destruct q'; discriminate|].
+    split.
+    + destruct (comp_at (m_comps m) (x :: y)) as [c|]; [|discriminate].
+      destruct (nth_error (c_vars c) (last (j :: a :: q') 0)) as [w|] eqn:En; [|discriminate].
+      intros H. injection H as <-. exists c. split; [reflexivity | exact En].
+    + intros (c & -> & ->). reflexivity.
+Qed.
+
+Lemma var_located_at_in m p v : var_located_at m p = LVar v <-> In (p, v) (model_vars m).
+Proof. rewrite var_located_at_walk, model_vars_in. reflexivity. Qed.
+
+(* ------------------------------------------------------------------------------------------ shape of the clone *)
+
+Definition pv_map (f : variable -> variable) (pv : path * variable) : path * variable := (fst pv, f (snd pv)).
+
+Lemma idx_vars_map pre f l : forall i, idx_vars pre i (map f l) = map (pv_map f) (idx_vars pre i l).
+Proof. induction l as [|x r IH]; intros i; cbn; [reflexivity | rewrite IH; reflexivity]. Qed.
+
+Lemma comp_vars_at_map_f f c : forall pre,
+  comp_vars_at pre (map_comp (fun i => i) (fun u => u) f (fun r => r) (fun c => c) c) = map (pv_map f) (comp_vars_at pre c).
+Proof.
+  induction c as [o pp id name encid math imp impref vars resets kids IH] using component_ind'. intros pre.
+  rewrite map_comp_unfold, !comp_vars_at_unfold, map_app. f_equal.
+  - rewrite <- idx_vars_map. f_equal. apply map_ext. intros v. apply map_var_idg.
+  - rewrite Forall_forall in IH. generalize 0. induction kids as [|k r IHr]; intros i; cbn [map comps_vars_at]; [reflexivity|].
+    rewrite map_app, IH by (left; reflexivity). f_equal. apply IHr. intros x Hx. apply IH. right. exact Hx.
+Qed.
+
+Lemma model_vars_map_f f m :
+  model_vars (map_model (fun i => i) (fun u => u) f (fun r => r) (fun c => c) m) = map (pv_map f) (model_vars m).
+Proof.
+  unfold model_vars, map_model. cbn [m_comps]. generalize 0. generalize (@nil nat).
+  induction (m_comps m) as [|k r IHr]; intros pre i; cbn [map comps_vars_at]; [reflexivity|].
+  rewrite map_app, comp_vars_at_map_f, IHr. reflexivity.
+Qed.
+
+Lemma idx_vars_fst pre (l l' : list variable) : List.length l = List.length l' ->
+  forall i, map fst (idx_vars pre i l) = map fst (idx_vars pre i l').
+Proof.
+  revert l'. induction l as [|x r IH]; intros [|y r'] H i; cbn in *; try discriminate; [reflexivity|].
+  f_equal. apply IH. lia.
+Qed.
+
+Lemma clone_variables_length fx owner l : forall n, List.length (fst (clone_variables fx n owner l)) = List.length l.
+Proof.
+  induction l as [|v r IH]; intros n; cbn; [reflexivity|]. destruct (clone_variable fx n v) as [v' n1].
+  specialize (IH n1). destruct (clone_variables fx n1 owner r). cbn in *. rewrite IH. reflexivity.
+Qed.
+
+Lemma comp_vars_at_set_parent p pre c : comp_vars_at pre (c_set_parent p c) = comp_vars_at pre c.
+Proof. destruct c; reflexivity. Qed.
+
+Definition lt_all (hi : nat) (l : list (path * variable)) : Prop := forall pv, In pv l -> v_oid (snd pv) < hi.
+Definition ge_all (lo : nat) (l : list (path * variable)) : Prop := forall pv, In pv l -> lo <= v_oid (snd pv).
+
+Lemma NoDup_oid_app (a b : list (path * variable)) mid :
+  NoDup (map (fun pv => v_oid (snd pv)) a) -> NoDup (map (fun pv => v_oid (snd pv)) b) -> lt_all mid a -> ge_all mid b ->
+  NoDup (map (fun pv => v_oid (snd pv)) (a ++ b)).
+Proof.
+  intros Ha Hb La Gb. rewrite map_app. induction a as [|x r IH]; cbn; [exact Hb|]. inversion Ha as [|? ? Hx Hr]; subst.
+  constructor.
+  - rewrite in_app_iff. intros [H|H]; [exact (Hx H)|]. apply in_map_iff in H. destruct H as (y & Ey & Hy).
+    specialize (La x (or_introl eq_refl)). specialize (Gb y Hy). lia.
+  - apply IH; [exact Hr|]. intros pv Hpv. apply La. right. exact Hpv.
+Qed.
+
+Lemma idx_vars_oids pre l : forall i, map (fun pv => v_oid (snd pv)) (idx_vars pre i l) = map v_oid l.
+Proof. induction l as [|x r IH]; intros i; cbn; [reflexivity | rewrite IH; reflexivity]. Qed.
+
+Lemma idx_vars_snd pre l : forall i pv, In pv (idx_vars pre i l) -> In (snd pv) l.
+Proof.
+  induction l as [|x r IH]; intros i pv; cbn; [intros []|]. intros [<-|H]; [left; reflexivity | right; eapply IH; exact H].
+Qed.
+
+Definition shape_ok (lo hi : nat) (orig cl : list (path * variable)) : Prop :=
+  map fst cl = map fst orig /\ NoDup (map (fun pv => v_oid (snd pv)) cl) /\ ge_all lo cl /\ lt_all hi cl /\
+  (forall pv, In pv cl -> v_eqs (snd pv) = []).
+
+Lemma clone_resets_ge fx owner ovars cvars l : forall n, n <= snd (clone_resets fx n owner ovars cvars l).
+Proof.
+  induction l as [|r rest IH]; intros n; cbn; [lia|]. pose proof (clone_reset_spec fx n r) as Hr.
+  destruct (clone_reset fx n r) as [r' n1]. cbn in Hr. specialize (IH n1). destruct (clone_resets fx n1 owner ovars cvars rest). cbn in *. lia.
+Qed.
+
+Lemma clone_imp_nx fx s imp : nx s <= nx (snd (clone_imp fx s imp)).
+Proof. unfold clone_imp. destruct imp as [i|]; [|cbn; lia]. destruct (fx_isrc fx); [|cbn; lia]. destruct (lookup (is_oid i) (imap s)); cbn; lia. Qed.
+
+Lemma clone_variables_eqs fx owner l : forall n w, In w (fst (clone_variables fx n owner l)) -> v_eqs w = [].
+Proof.
+  induction l as [|v r IH]; intros n w; cbn; [intros []|].
+  destruct (clone_variable fx n v) as [v' n1] eqn:Ev. specialize (IH n1 w). destruct (clone_variables fx n1 owner r) as [r' n2]. cbn in *.
+  intros [<-|Hw]; [|exact (IH Hw)]. cbn.
+  unfold clone_variable in Ev. destruct (v_units v); [destruct (clone_units fx (S n) u)|]; injection Ev as <- _; reflexivity.
+Qed.
+
+Lemma clone_comp_shape fx c : forall pre s c' s',
+  clone_comp fx s c = (c', s') -> nx s < nx s' /\ shape_ok (nx s) (nx s') (comp_vars_at pre c) (comp_vars_at pre c').
+Proof.
+  induction c as [o pp id name encid math imp impref vars resets kids IH] using component_ind'.
+  intros pre s c' s'. rewrite clone_comp_unfold. cbv zeta.
+  pose proof (clone_imp_nx fx (st_nx (S (nx s)) s) imp) as N1.
+  destruct (clone_imp fx (st_nx (S (nx s)) s) imp) as [imp' s1] eqn:E1. cbn in N1.
+  pose proof (clone_variables_spec fx (nx s) vars (nx s1)) as SV. pose proof (clone_variables_length fx (nx s) vars (nx s1)) as LV.
+  destruct (clone_variables fx (nx s1) (nx s) vars) as [vars' n2] eqn:E2. cbn in LV.
+  pose proof (clone_resets_ge fx (nx s) vars vars' resets n2) as N3.
+  destruct (clone_resets fx n2 (nx s) vars vars' resets) as [resets' n3] eqn:E3. cbn in N3.
+  destruct (clone_comps fx (st_nx n3 s1) (nx s) kids) as [kids' s4] eqn:E4. intros H. injection H as <- <-.
+  destruct (SV _ _ eq_refl) as (L2 & _ & _ & RV & DV).
+  assert (EV : forall w, In w vars' -> v_eqs w = []).
+  { intros w Hw. apply (clone_variables_eqs fx (nx s) vars (nx s1)). rewrite E2. exact Hw. }
+  assert (K : forall l i z l' z', Forall (fun c => forall pre s c' s', clone_comp fx s c = (c', s') ->
+                 nx s < nx s' /\ shape_ok (nx s) (nx s') (comp_vars_at pre c) (comp_vars_at pre c')) l ->
+             clone_comps fx z (nx s) l = (l', z') ->
+             nx z <= nx z' /\ shape_ok (nx z) (nx z') (comps_vars_at pre i l) (comps_vars_at pre i l')).
+  { induction l as [|k r IHr]; intros i z l' z' Hall; cbn [clone_comps].
+    - intros H. injection H as <- <-. split; [lia|]. cbn. repeat split; try constructor; intros pv [].
+    - destruct (clone_comp fx z k) as [k' z1] eqn:Ek. destruct (clone_comps fx z1 (nx s) r) as [r' z2] eqn:Er.
+      intros H. injection H as <- <-. inversion Hall as [|? ? Hk Hr']; subst.
+      apply (Hk (pre ++ [i])) in Ek. destruct Ek as (Lk & Sk1 & Sk2 & Sk3 & Sk4 & Sk5).
+      apply (IHr (S i)) in Er; [|exact Hr']. destruct Er as (Lr & Sr1 & Sr2 & Sr3 & Sr4 & Sr5).
+      split; [lia|]. cbn [comps_vars_at]. rewrite comp_vars_at_set_parent. repeat split.
+      + rewrite !map_app, Sk1, Sr1. reflexivity.
+      + apply (NoDup_oid_app _ _ (nx z1)); assumption.
+      + intros pv Hpv. apply in_app_or in Hpv. destruct Hpv as [Hp|Hp]; [apply Sk3 in Hp; lia | apply Sr3 in Hp; lia].
+      + intros pv Hpv. apply in_app_or in Hpv. destruct Hpv as [Hp|Hp]; [apply Sk4 in Hp; lia | apply Sr4 in Hp; lia].
+      + intros pv Hpv. apply in_app_or in Hpv. destruct Hpv as [Hp|Hp]; [apply Sk5; exact Hp | apply Sr5; exact Hp]. }
+  apply (K kids 0) in E4; [|exact IH]. cbn in E4. destruct E4 as (L4 & S1 & S2 & S3 & S4 & S5).
+  split; [lia|]. rewrite !comp_vars_at_unfold. repeat split.
+  - rewrite !map_app, S1. f_equal. apply idx_vars_fst. exact LV.
+  - apply (NoDup_oid_app _ _ n3).
+    + rewrite idx_vars_oids. exact DV.
+    + exact S2.
+    + intros pv Hpv. apply idx_vars_snd in Hpv. apply RV in Hpv. lia.
+    + exact S3.
+  - intros pv Hpv. apply in_app_or in Hpv. destruct Hpv as [Hp|Hp]; [apply idx_vars_snd in Hp; apply RV in Hp; lia | apply S3 in Hp; lia].
+  - intros pv Hpv. apply in_app_or in Hpv. destruct Hpv as [Hp|Hp]; [apply idx_vars_snd in Hp; apply RV in Hp; lia | apply S4 in Hp; lia].
+  - intros pv Hpv. apply in_app_or in Hpv. destruct Hpv as [Hp|Hp]; [apply EV; eapply idx_vars_snd; exact Hp | apply S5; exact Hp].
+Qed.
+
+Lemma clone_comps_shape fx owner l : forall pre i z l' z',
+  clone_comps fx z owner l = (l', z') ->
+  nx z <= nx z' /\ shape_ok (nx z) (nx z') (comps_vars_at pre i l) (comps_vars_at pre i l').
+Proof.
+  induction l as [|k r IHr]; intros pre i z l' z'; cbn [clone_comps].
+  - intros H. injection H as <- <-. split; [lia|]. cbn. repeat split; try constructor; intros pv [].
+  - destruct (clone_comp fx z k) as [k' z1] eqn:Ek. destruct (clone_comps fx z1 owner r) as [r' z2] eqn:Er.
+    intros H. injection H as <- <-.
+    apply (clone_comp_shape fx k (pre ++ [i])) in Ek. destruct Ek as (Lk & Sk1 & Sk2 & Sk3 & Sk4 & Sk5).
+    apply (IHr pre (S i)) in Er. destruct Er as (Lr & Sr1 & Sr2 & Sr3 & Sr4 & Sr5).
+    split; [lia|]. cbn [comps_vars_at]. rewrite comp_vars_at_set_parent. repeat split.
+    + rewrite !map_app, Sk1, Sr1. reflexivity.
+    + apply (NoDup_oid_app _ _ (nx z1)); assumption.
+    + intros pv Hpv. apply in_app_or in Hpv. destruct Hpv as [Hp|Hp]; [apply Sk3 in Hp; lia | apply Sr3 in Hp; lia].
+    + intros pv Hpv. apply in_app_or in Hpv. destruct Hpv as [Hp|Hp]; [apply Sk4 in Hp; lia | apply Sr4 in Hp; lia].
+    + intros pv Hpv. apply in_app_or in Hpv. destruct Hpv as [Hp|Hp]; [apply Sk5; exact Hp | apply Sr5; exact Hp].
+Qed.
+
+(* ------------------------------------------------------------------------------------------ the equivalence store *)
+
+Lemma es_get_set_same o l E : es_get o (es_set o l E) = l.
+Proof.
+  unfold es_get. induction E as [|[k x] r IH]; cbn; [rewrite Nat.eqb_refl; reflexivity|].
+  destruct (Nat.eqb k o) eqn:Ek; cbn; rewrite Ek; [reflexivity | exact IH].
+Qed.
+
+Lemma es_get_set_other o o' l E : o' <> o -> es_get o' (es_set o l E) = es_get o' E.
+Proof.
+  intros Hne. unfold es_get. induction E as [|[k x] r IH]; cbn.
+  - destruct (Nat.eqb o o') eqn:Eo; [apply Nat.eqb_eq in Eo; subst; contradiction | reflexivity].
+  - destruct (Nat.eqb k o) eqn:Ek; cbn.
+    + apply Nat.eqb_eq in Ek. subst k. destruct (Nat.eqb o o') eqn:Eo; [apply Nat.eqb_eq in Eo; subst; contradiction | reflexivity].
+    + destruct (Nat.eqb k o'); [reflexivity | exact IH].
+Qed.
+
+Lemma has_eq_in o l : has_eq o l = true <-> In o (map e_var l).
+Proof.
+  unfold has_eq. rewrite existsb_exists. split.
+  - intros (e & He & Ee). apply Nat.eqb_eq in Ee. subst. apply in_map. exact He.
+  - intros H. apply in_map_iff in H. destruct H as (e & <- & He). exists e. split; [exact He | apply Nat.eqb_refl].
+Qed.
+
+Definition blank (o : oid) : eqref := {| e_var := o; e_mapid := ""; e_connid := "" |}.
+
+(* symmetric state of the store after the pairs D have been connected *)
+Definition sinv (E : estore) (D : list (oid * oid)) : Prop :=
+  (forall o1 o2, In o2 (map e_var (es_get o1 E)) <-> In (o1, o2) D \/ In (o2, o1) D) /\
+  (forall o, NoDup (map e_var (es_get o E))) /\
+  (forall o e, In e (es_get o E) -> e = blank (e_var e)).
+
+Lemma sinv_nil : sinv [] [].
+Proof. split; [|split]; cbn; [intros o1 o2; tauto | constructor | intros o e []]. Qed.
+
+Lemma NoDup_snoc {T} (l : list T) x : NoDup l -> ~ In x l -> NoDup (l ++ [x]).
+Proof.
+  induction l as [|a r IH]; cbn; intros Hnd Hx; [constructor; [intros [] | constructor]|].
+  inversion Hnd as [|? ? Ha Hr]; subst. constructor.
+  - rewrite in_app_iff. cbn. intros [H|[H|[]]]; [exact (Ha H) | subst; apply Hx; left; reflexivity].
+  - apply IH; [exact Hr | intros H; apply Hx; right; exact H].
+Qed.
+
+Lemma in_snoc {T} (x d : T) D : In x (D ++ [d]) <-> In x D \/ x = d.
+Proof. rewrite in_app_iff. cbn. split; [intros [H|[H|[]]]; [left | right; symmetry]; assumption | intros [H|H]; [left | right; left; symmetry]; assumption]. Qed.
+
+Lemma add_equivalence_sinv o1 o2 E D : o1 <> o2 -> sinv E D -> sinv (add_equivalence o1 o2 E) (D ++ [(o1, o2)]).
+Proof.
+  intros Hne (S1 & S2 & S3). unfold add_equivalence.
+  destruct (has_eq o2 (es_get o1 E)) eqn:H12.
+  - (* already connected: nothing changes *)
+    cbn [negb]. assert (H21 : has_eq o1 (es_get o2 E) = true).
+    { apply has_eq_in. apply S1. apply has_eq_in in H12. apply S1 in H12. tauto. }
+    rewrite H21. cbn. split; [|split; assumption]. intros a b. rewrite S1, !in_snoc.
+    apply has_eq_in in H12. apply S1 in H12. split; [tauto|].
+    intros [[H|H]|[H|H]]; try tauto; inversion H; subst; tauto.
+  - cbn [negb]. rewrite es_get_set_other by (intros E'; apply Hne; symmetry; exact E').
+    assert (H21 : has_eq o1 (es_get o2 E) = false).
+    { destruct (has_eq o1 (es_get o2 E)) eqn:H; [|reflexivity]. apply has_eq_in in H. apply S1 in H.
+      assert (X : In o2 (map e_var (es_get o1 E))) by (apply S1; tauto). apply has_eq_in in X. congruence. }
+    rewrite H21. cbn [negb andb].
+    fold (blank o2). fold (blank o1).
+    set (E1 := es_set o1 (es_get o1 E ++ [blank o2]) E). set (E2 := es_set o2 (es_get o2 E ++ [blank o1]) E1).
+    assert (G : forall a, es_get a E2 = if Nat.eqb a o2 then es_get o2 E ++ [blank o1] else if Nat.eqb a o1 then es_get o1 E ++ [blank o2] else es_get a E).
+    { intros a. unfold E2. destruct (Nat.eqb a o2) eqn:Ea2.
+      - apply Nat.eqb_eq in Ea2. subst a. apply es_get_set_same.
+      - apply Nat.eqb_neq in Ea2. rewrite es_get_set_other by exact Ea2. unfold E1. destruct (Nat.eqb a o1) eqn:Ea1.
+        + apply Nat.eqb_eq in Ea1. subst a. apply es_get_set_same.
+        + apply Nat.eqb_neq in Ea1. apply es_get_set_other. exact Ea1. }
+    assert (N12 : ~ In o2 (map e_var (es_get o1 E))) by (intros X; apply has_eq_in in X; congruence).
+    assert (N21 : ~ In o1 (map e_var (es_get o2 E))) by (intros X; apply has_eq_in in X; congruence).
+    split; [|split].
+    + intros a b. rewrite G, !in_snoc.
+      destruct (Nat.eqb a o2) eqn:Ea2; [apply Nat.eqb_eq in Ea2; subst a|apply Nat.eqb_neq in Ea2; destruct (Nat.eqb a o1) eqn:Ea1; [apply Nat.eqb_eq in Ea1; subst a|apply Nat.eqb_neq in Ea1]].
+      * rewrite map_app, in_app_iff, S1. cbn. split.
+        -- intros [H|[<-|[]]]; tauto.
+        -- intros [[H|H]|[H|H]]; try tauto; inversion H; subst; first [tauto | congruence].
+      * rewrite map_app, in_app_iff, S1. cbn. split.
+        -- intros [H|[<-|[]]]; tauto.
+        -- intros [[H|H]|[H|H]]; try tauto; inversion H; subst; first [tauto | congruence].
+      * rewrite S1. split; [tauto|]. intros [[H|H]|[H|H]]; try tauto; inversion H; subst; congruence.
+    + intros a. rewrite G. destruct (Nat.eqb a o2); [|destruct (Nat.eqb a o1)]; try apply S2.
+      * rewrite map_app. cbn. apply NoDup_snoc; [apply S2 | exact N21].
+      * rewrite map_app. cbn. apply NoDup_snoc; [apply S2 | exact N12].
+    + intros a e. rewrite G. destruct (Nat.eqb a o2); [|destruct (Nat.eqb a o1)]; try apply S3.
+      * rewrite in_app_iff. intros [H|[<-|[]]]; [eapply S3; exact H | reflexivity].
+      * rewrite in_app_iff. intros [H|[<-|[]]]; [eapply S3; exact H | reflexivity].
+Qed.
+
+Definition connect (D : list (oid * oid)) (E : estore) : estore :=
+  fold_left (fun E d => add_equivalence (fst d) (snd d) E) D E.
+
+Lemma connect_sinv D : (forall d, In d D -> fst d <> snd d) -> forall E D0, sinv E D0 -> sinv (connect D E) (D0 ++ D).
+Proof.
+  induction D as [|[a b] r IH]; intros Hne E D0 HS; cbn.
+  - rewrite app_nil_r. exact HS.
+  - replace (D0 ++ (a, b) :: r) with ((D0 ++ [(a, b)]) ++ r) by (rewrite <- app_assoc; reflexivity).
+    apply IH; [intros d Hd; apply Hne; right; exact Hd|]. apply add_equivalence_sinv; [|exact HS]. apply (Hne (a, b)). left. reflexivity.
+Qed.
+
+(* the id pass on the store *)
+Definition idupd : Type := oid * oid * string * string.
+Definition copy_one (u : idupd) (E : estore) : estore :=
+  match u with (o1, o2, a, b) => es_set o1 (set_ids o2 a b (es_get o1 E)) E end.
+Definition copies (U : list idupd) (E : estore) : estore := fold_left (fun E u => copy_one u E) U E.
+
+Definition step (u : idupd) (o : oid) (e : eqref) : eqref :=
+  match u with (o1, o2, a, b) =>
+    if Nat.eqb o o1 && Nat.eqb (e_var e) o2 then {| e_var := e_var e; e_mapid := a; e_connid := b |} else e end.
+Fixpoint relabel (U : list idupd) (o : oid) (e : eqref) : eqref :=
+  match U with [] => e | u :: r => relabel r o (step u o e) end.
+
+Lemma copy_one_get u o E : es_get o (copy_one u E) = map (step u o) (es_get o E).
+Proof.
+  destruct u as [[[o1 o2] a] b]. unfold copy_one. destruct (Nat.eqb o o1) eqn:Eo.
+  - apply Nat.eqb_eq in Eo. subst o. rewrite es_get_set_same. unfold set_ids. apply map_ext. intros e. cbn. rewrite Nat.eqb_refl. cbn. reflexivity.
+  - apply Nat.eqb_neq in Eo. rewrite es_get_set_other by exact Eo. symmetry. rewrite <- (map_id (es_get o E)) at 2. apply map_ext. intros e.
+    cbn. apply Nat.eqb_neq in Eo. rewrite Eo. reflexivity.
+Qed.
+
+Lemma copies_get U : forall o E, es_get o (copies U E) = map (relabel U o) (es_get o E).
+Proof.
+  induction U as [|u r IH]; intros o E; cbn; [rewrite map_id; reflexivity|].
+  unfold copies in IH. rewrite IH, copy_one_get, map_map. reflexivity.
+Qed.
+
+Lemma step_var u o e : e_var (step u o e) = e_var e.
+Proof. destruct u as [[[o1 o2] a] b]. cbn. destruct (Nat.eqb o o1 && Nat.eqb (e_var e) o2); reflexivity. Qed.
+
+Lemma relabel_var U : forall o e, e_var (relabel U o e) = e_var e.
+Proof. induction U as [|u r IH]; intros o e; cbn; [reflexivity | rewrite IH; apply step_var]. Qed.
+
+Lemma relabel_ids U o a b : forall e,
+  (forall a' b', In (o, e_var e, a', b') U -> a' = a /\ b' = b) ->
+  (e_mapid e = a /\ e_connid e = b) \/ In (o, e_var e, a, b) U ->
+  relabel U o e = {| e_var := e_var e; e_mapid := a; e_connid := b |}.
+Proof.
+  induction U as [|u r IH]; intros e Hf H; cbn.
+  - destruct H as [[<- <-]|[]]. destruct e; reflexivity.
+  - rewrite IH; [rewrite step_var; reflexivity | rewrite step_var; intros a' b' Hin; apply Hf; right; exact Hin|].
+    rewrite step_var. destruct u as [[[o1 o2] a0] b0]. cbn.
+    destruct (Nat.eqb o o1 && Nat.eqb (e_var e) o2) eqn:Em.
+    + apply andb_true_iff in Em. destruct Em as [E1 E2]. apply Nat.eqb_eq in E1. apply Nat.eqb_eq in E2. subst o1 o2.
+      left. cbn. apply Hf. left. reflexivity.
+    + destruct H as [H|[H|H]]; [left; exact H | | right; exact H].
+      injection H as -> -> -> ->. rewrite !Nat.eqb_refl in Em. discriminate.
+Qed.
+
+(* ------------------------------------------------------------------------------------------ recording the equivalences *)
+
+Definition em_pairs (em : eqmap) : list (path * path) := flat_map (fun kv => map (fun t => (fst kv, t)) (snd kv)) em.
+
+Lemma path_eqb_eq a : forall b, path_eqb a b = true <-> a = b.
+Proof.
+  induction a as [|x a IH]; intros [|y b]; cbn; split; try discriminate; try reflexivity.
+  - intros H. apply andb_true_iff in H. destruct H as [H1 H2]. apply Nat.eqb_eq in H1. apply IH in H2. subst. reflexivity.
+  - intros H. injection H as -> ->. rewrite Nat.eqb_refl. apply IH. reflexivity.
+Qed.
+
+Lemma em_add_pairs k t em : forall x, In x (em_pairs (em_add k t em)) <-> x = (k, t) \/ In x (em_pairs em).
+Proof.
+  induction em as [|[k' ts] r IH]; intros x; cbn.
+  - split; [intros [H|[]]; left; symmetry; exact H | intros [H|[]]; left; symmetry; exact H].
+  - destruct (path_eqb k k') eqn:Ek.
+    + apply path_eqb_eq in Ek. subst k'. cbn. rewrite map_app, !in_app_iff. cbn. split.
+      * intros [[H|[H|[]]]|H]; [right; left; exact H | left; symmetry; exact H | right; right; exact H].
+      * intros [H|[H|H]]; [left; right; left; symmetry; exact H | left; left; exact H | right; exact H].
+    + destruct (lex_ltb k k').
+      * cbn. rewrite !in_app_iff. cbn. split.
+        -- intros [H|[H|H]]; [left; symmetry; exact H | right; left; exact H | right; right; exact H].
+        -- intros [H|[H|H]]; [left; symmetry; exact H | right; left; exact H | right; right; exact H].
+      * cbn. rewrite !in_app_iff, IH. tauto.
+Qed.
+
+Definition record_list (fx : flags) (ext : oid -> ext_loc) (m : model) (l : list (path * variable)) (acc : option eqmap) : option eqmap :=
+  fold_left (fun acc pv => record_var fx ext m (fst pv) (snd pv) acc) l acc.
+
+Lemma record_vars_list fx ext m stack l : forall i acc,
+  record_vars fx ext m stack i l acc = record_list fx ext m (idx_vars stack i l) acc.
+Proof. induction l as [|v r IH]; intros i acc; cbn; [reflexivity | apply IH]. Qed.
+
+Lemma record_list_app fx ext m a b acc : record_list fx ext m (a ++ b) acc = record_list fx ext m b (record_list fx ext m a acc).
+Proof. unfold record_list. apply fold_left_app. Qed.
+
+Lemma record_comp_list fx ext m c : forall stack acc,
+  record_comp fx ext m stack c acc = record_list fx ext m (comp_vars_at stack c) acc.
+Proof.
+  induction c as [o pp id name encid math imp impref vars resets kids IH] using component_ind'. intros stack acc.
+  rewrite comp_vars_at_unfold, record_list_app, <- record_vars_list. cbn [record_comp].
+  generalize (record_vars fx ext m stack 0 vars acc). generalize 0. rewrite Forall_forall in IH.
+  induction kids as [|k r IHr]; intros i a; cbn [comps_vars_at]; [reflexivity|].
+  rewrite record_list_app, <- IH by (left; reflexivity). apply IHr. intros x Hx. apply IH. right. exact Hx.
+Qed.
+
+Lemma record_comps_list fx ext m stack l : forall i acc,
+  record_comps fx ext m stack i l acc = record_list fx ext m (comps_vars_at stack i l) acc.
+Proof.
+  induction l as [|k r IH]; intros i acc; cbn [record_comps comps_vars_at]; [reflexivity|].
+  rewrite record_list_app, <- record_comp_list. apply IH.
+Qed.
+
+Lemma record_model_list fx ext m : record_model fx ext m = record_list fx ext m (model_vars m) (Some []).
+Proof. apply record_comps_list. Qed.
+
+(* repaired code: only equivalent variables inside the model are recorded, and recording never fails *)
+Lemma record_var_spec fx ext m key v em : fx_ext fx = true ->
+  exists em', record_var fx ext m key v (Some em) = Some em' /\
+    forall x, In x (em_pairs em') <-> In x (em_pairs em) \/ exists e, In e (v_eqs v) /\ index_stack_of m (e_var e) = Some (snd x) /\ fst x = key.
+Proof.
+  intros Hfx. unfold record_var. rewrite Hfx. revert em. induction (v_eqs v) as [|e r IH]; intros em; cbn.
+  - exists em. split; [reflexivity|]. intros x. split; [tauto | intros [H|(e & [] & _)]; exact H].
+  - destruct (index_stack_of m (e_var e)) as [p|] eqn:Ep.
+    + destruct (IH (em_add key p em)) as (em' & E' & S'). exists em'. split; [exact E'|]. intros x. rewrite S', em_add_pairs. split.
+      * intros [[->|H]|(e0 & He0 & R)]; [right; exists e; cbn; tauto | left; exact H | right; exists e0; tauto].
+      * intros [H|(e0 & [<-|He0] & R1 & R2)]; [tauto | | right; exists e0; tauto].
+        left. left. destruct x as [xk xt]. cbn in *. subst. congruence.
+    + destruct (IH em) as (em' & E' & S'). exists em'. split; [exact E'|]. intros x. rewrite S'. split.
+      * intros [H|(e0 & He0 & R)]; [left; exact H | right; exists e0; tauto].
+      * intros [H|(e0 & [<-|He0] & R1 & R2)]; [tauto | congruence | right; exists e0; tauto].
+Qed.
+
+Lemma record_list_spec fx ext m l : fx_ext fx = true -> forall em,
+  exists em', record_list fx ext m l (Some em) = Some em' /\
+    forall x, In x (em_pairs em') <-> In x (em_pairs em) \/
+       exists v e, In (fst x, v) l /\ In e (v_eqs v) /\ index_stack_of m (e_var e) = Some (snd x).
+Proof.
+  intros Hfx. induction l as [|[k v] r IH]; intros em; cbn.
+  - exists em. split; [reflexivity|]. intros x. split; [tauto | intros [H|(v & e & [] & _)]; exact H].
+  - destruct (record_var_spec fx ext m k v em Hfx) as (em1 & E1 & S1). rewrite E1.
+    destruct (IH em1) as (em' & E' & S'). exists em'. split; [exact E'|]. intros x. rewrite S', S1. split.
+    + intros [[H|(e & He & R1 & R2)]|(v0 & e & Hv & R)]; [tauto | right; exists v, e; rewrite R2; tauto | right; exists v0, e; tauto].
+    + intros [H|(v0 & e & [Hv|Hv] & He & R)]; [tauto | | right; exists v0, e; tauto].
+      injection Hv as <- <-. left. right. exists e. tauto.
+Qed.
+
+Lemma record_model_spec fx ext m : fx_ext fx = true ->
+  exists em, record_model fx ext m = Some em /\
+    forall k t, In (k, t) (em_pairs em) <-> exists v e, In (k, v) (model_vars m) /\ In e (v_eqs v) /\ index_stack_of m (e_var e) = Some t.
+Proof.
+  intros Hfx. rewrite record_model_list. destruct (record_list_spec fx ext m (model_vars m) Hfx []) as (em & E & S).
+  exists em. split; [exact E|]. intros k t. rewrite S. cbn. split; [intros [[]|H]; exact H | intros H; right; exact H].
+Qed.
+
+(* ------------------------------------------------------------------------------------------ applying the map to the clone *)
+
+Definition tau (m : model) (p : path) : oid := match var_located_at m p with LVar v => v_oid v | _ => 0 end.
+
+Lemma fold_left_map {X Y Z} (f : Z -> Y -> Z) (g : X -> Y) l : forall a, fold_left f (map g l) a = fold_left (fun a x => f a (g x)) l a.
+Proof. induction l as [|x r IH]; intros a; cbn; [reflexivity | apply IH]. Qed.
+
+Lemma apply_map_pairs m' em : forall acc,
+  apply_map m' em acc = fold_left (fun acc kt => make_equivalence m' (fst kt) (snd kt) acc) (em_pairs em) acc.
+Proof.
+  unfold apply_map. induction em as [|[k ts] r IH]; intros acc; cbn; [reflexivity|].
+  rewrite fold_left_app, fold_left_map. cbn. apply IH.
+Qed.
+
+Lemma copy_ids_pairs m m' em : forall E,
+  copy_ids m m' em E = fold_left (fun E kt => copy_ids_one m m' (fst kt) (snd kt) E) (em_pairs em) E.
+Proof.
+  unfold copy_ids. induction em as [|[k ts] r IH]; intros E; cbn; [reflexivity|].
+  rewrite fold_left_app, fold_left_map. cbn. apply IH.
+Qed.
+
+Definition located (m : model) (p : path) : Prop := exists v, var_located_at m p = LVar v.
+
+Lemma apply_located m' P : (forall kt, In kt P -> located m' (fst kt) /\ located m' (snd kt)) -> forall E,
+  fold_left (fun acc kt => make_equivalence m' (fst kt) (snd kt) acc) P (Some E)
+  = Some (connect (map (fun kt => (tau m' (fst kt), tau m' (snd kt))) P) E).
+Proof.
+  induction P as [|[k t] r IH]; intros Hl E; cbn; [reflexivity|].
+  destruct (Hl (k, t) (or_introl eq_refl)) as [[c1 L1] [c2 L2]]. cbn in L1, L2.
+  unfold tau. rewrite L1, L2. apply IH. intros kt Hkt. apply Hl. right. exact Hkt.
+Qed.
+
+Definition upd_of (m m' : model) (kt : path * path) : idupd :=
+  match var_located_at m (fst kt) with
+  | LVar v1 => let (a, b) := ids_of (tau m (snd kt)) (v_eqs v1) in (tau m' (fst kt), tau m' (snd kt), a, b)
+  | _ => (0, 0, "", "")
+  end.
+
+Lemma copy_located m m' P :
+  (forall kt, In kt P -> located m (fst kt) /\ located m (snd kt) /\ located m' (fst kt) /\ located m' (snd kt)) -> forall E,
+  fold_left (fun E kt => copy_ids_one m m' (fst kt) (snd kt) E) P E = copies (map (upd_of m m') P) E.
+Proof.
+  induction P as [|[k t] r IH]; intros Hl E; cbn; [reflexivity|].
+  destruct (Hl (k, t) (or_introl eq_refl)) as ([v1 L1] & [v2 L2] & [c1 M1] & [c2 M2]). cbn in L1, L2, M1, M2.
+  rewrite IH by (intros kt Hkt; apply Hl; right; exact Hkt). f_equal.
+  unfold copy_ids_one, upd_of, tau. cbn. rewrite L1, L2, M1, M2. destruct (ids_of (v_oid v2) (v_eqs v1)) as [a b]. reflexivity.
+Qed.
+
+(* ------------------------------------------------------------------------------------------ equivalences of a cloned model *)
+
+Lemma find_path_some o l q : find_path o l = Some q -> exists v, In (q, v) l /\ v_oid v = o.
+Proof.
+  induction l as [|[p v] r IH]; cbn; [discriminate|]. destruct (Nat.eqb (v_oid v) o) eqn:E.
+  - intros H. injection H as <-. exists v. split; [left; reflexivity | apply Nat.eqb_eq; exact E].
+  - intros H. destruct (IH H) as (w & Hw & Ew). exists w. split; [right; exact Hw | exact Ew].
+Qed.
+
+Lemma find_path_nodup l : NoDup (map (fun pv => v_oid (snd pv)) l) -> forall q v, In (q, v) l -> find_path (v_oid v) l = Some q.
+Proof.
+  induction l as [|[p w] r IH]; cbn; intros Hnd q v; [intros []|]. inversion Hnd as [|? ? Hx Hr]; subst.
+  intros [E|H].
+  - injection E as -> ->. rewrite Nat.eqb_refl. reflexivity.
+  - destruct (Nat.eqb (v_oid w) (v_oid v)) eqn:E; [|apply IH; assumption].
+    apply Nat.eqb_eq in E. exfalso. apply Hx. rewrite E. apply (in_map (fun pv => v_oid (snd pv)) r (q, v)). exact H.
+Qed.
+
+Lemma find_path_map_f f o l : (forall v, v_oid (f v) = v_oid v) -> find_path o (map (pv_map f) l) = find_path o l.
+Proof. intros Hf. induction l as [|[p v] r IH]; cbn; [reflexivity|]. rewrite Hf, IH. reflexivity. Qed.
+
+Lemma model_vars_fun m p v v' : In (p, v) (model_vars m) -> In (p, v') (model_vars m) -> v = v'.
+Proof. intros H1 H2. apply var_located_at_in in H1. apply var_located_at_in in H2. congruence. Qed.
+
+Definition eq_rel (m : model) (k t : path) : Prop :=
+  exists v e, In (k, v) (model_vars m) /\ In e (v_eqs v) /\ index_stack_of m (e_var e) = Some t.
+
+Definition wf_eqs (m : model) : Prop :=
+  NoDup (map (fun pv => v_oid (snd pv)) (model_vars m)) /\
+  (forall k t, eq_rel m k t -> eq_rel m t k) /\
+  (forall pv e, In pv (model_vars m) -> In e (v_eqs (snd pv)) -> e_var e <> v_oid (snd pv)) /\
+  (forall pv, In pv (model_vars m) -> NoDup (map e_var (v_eqs (snd pv)))).
+
+Lemma model_eqvs_in b m x :
+  In x (model_eqvs b m) <->
+  exists p v e q, In (p, v) (model_vars m) /\ In e (v_eqs v) /\ index_stack_of m (e_var e) = Some q /\
+                  x = (p, q, if b then e_mapid e else "", if b then e_connid e else "").
+Proof.
+  unfold model_eqvs. rewrite in_flat_map. split.
+  - intros ([p v] & Hpv & Hx). unfold eqv_of_var in Hx. apply in_flat_map in Hx. destruct Hx as (e & He & Hx). cbn in *.
+    destruct (index_stack_of m (e_var e)) as [q|] eqn:Eq; [|destruct Hx]. destruct Hx as [<-|[]]. exists p, v, e, q. repeat split; assumption.
+  - intros (p & v & e & q & Hpv & He & Eq & ->). exists (p, v). split; [exact Hpv|]. unfold eqv_of_var. apply in_flat_map.
+    exists e. split; [exact He|]. cbn. rewrite Eq. left. reflexivity.
+Qed.
+
+Lemma tau_in m p v : In (p, v) (model_vars m) -> tau m p = v_oid v.
+Proof. intros H. apply var_located_at_in in H. unfold tau. rewrite H. reflexivity. Qed.
+
+Lemma located_in m p : located m p <-> exists v, In (p, v) (model_vars m).
+Proof. unfold located. split; intros [v H]; exists v; apply var_located_at_in; exact H. Qed.
+
+Lemma in_fst_iff {X Y} (l : list (X * Y)) p : In p (map fst l) <-> exists v, In (p, v) l.
+Proof.
+  rewrite in_map_iff. split.
+  - intros ([a b] & <- & H). exists b. exact H.
+  - intros [v H]. exists (p, v). split; [reflexivity | exact H].
+Qed.
+
+Lemma ids_of_nodup l e : NoDup (map e_var l) -> In e l -> ids_of (e_var e) l = (e_mapid e, e_connid e).
+Proof.
+  unfold ids_of. induction l as [|x r IH]; cbn; intros Hnd; [intros []|]. inversion Hnd as [|? ? Hx Hr]; subst.
+  intros [<-|H].
+  - rewrite Nat.eqb_refl. reflexivity.
+  - destruct (Nat.eqb (e_var x) (e_var e)) eqn:E; [|apply IH; assumption].
+    apply Nat.eqb_eq in E. exfalso. apply Hx. rewrite E. apply in_map. exact H.
+Qed.
+
+(* the state of the clone's equivalence lists, in terms of the original's equivalences *)
+Lemma clone_model_store fx ext n m m' n' :
+  fx_ext fx = true -> wf_eqs m -> clone_model fx ext n m = Some (m', n') ->
+  exists V1 E',
+    model_vars m' = map (pv_map (fun v => v_set_eqs (es_get (v_oid v) E') v)) V1 /\
+    map fst V1 = map fst (model_vars m) /\
+    NoDup (map (fun pv => v_oid (snd pv)) V1) /\
+    (forall p c, In (p, c) V1 -> forall o2,
+        In o2 (map e_var (es_get (v_oid c) E')) <-> exists q cq, In (q, cq) V1 /\ o2 = v_oid cq /\ eq_rel m p q) /\
+    (forall o, NoDup (map e_var (es_get o E'))) /\
+    (forall p c e, In (p, c) V1 -> In e (es_get (v_oid c) E') ->
+        if fx_eqids fx
+        then forall q cq v e1, In (q, cq) V1 -> e_var e = v_oid cq -> In (p, v) (model_vars m) -> In e1 (v_eqs v) ->
+                               index_stack_of m (e_var e1) = Some q -> e_mapid e = e_mapid e1 /\ e_connid e = e_connid e1
+        else e = blank (e_var e)).
+Proof.
+  intros Hfx (W1 & W2 & W3 & W4). unfold clone_model.
+  destruct (clone_units_list fx (st0 (S n)) n (m_units m)) as [us s1] eqn:E1.
+  destruct (clone_comps fx s1 n (m_comps m)) as [cs s2] eqn:E2.
+  destruct (record_model_spec fx ext m Hfx) as (em & Er & RS). rewrite Er.
+  set (m0 := {| m_oid := n; m_id := m_id m; m_name := m_name m; m_encid := m_encid m; m_units := us; m_comps := cs |}).
+  set (m1 := fix_component_units m0).
+  set (V := model_vars m). set (V1 := model_vars m1). set (P := em_pairs em).
+  (* shape *)
+  pose proof (clone_comps_shape fx n (m_comps m) [] 0 s1 cs s2 E2) as (_ & Sh1 & Sh2 & _ & _ & Sh5).
+  assert (EV1 : V1 = map (pv_map (fix_units_var (m_units m0) (map (fun pv => v_oid (snd pv)) (model_vars m0)))) (model_vars m0)).
+  { unfold V1, m1, fix_component_units. apply model_vars_map_f. }
+  assert (F1 : map fst V1 = map fst V).
+  { rewrite EV1, map_map. cbn. exact Sh1. }
+  assert (Koid : forall v, v_oid (fix_units_var (m_units m0) (map (fun pv => v_oid (snd pv)) (model_vars m0)) v) = v_oid v) by (intros v; apply keeps_fix_units).
+  assert (F2 : NoDup (map (fun pv => v_oid (snd pv)) V1)).
+  { rewrite EV1, map_map. erewrite map_ext; [exact Sh2|]. intros [p v]. cbn. apply Koid. }
+  assert (Floc : forall p, located m1 p <-> located m p).
+  { intros p. rewrite !located_in. fold V V1. rewrite <- !in_fst_iff, F1. reflexivity. }
+  assert (Finj : forall p q c cq, In (p, c) V1 -> In (q, cq) V1 -> v_oid c = v_oid cq -> p = q /\ c = cq).
+  { intros p q c cq H1 H2 E. pose proof (NoDup_map_inj _ _ F2 _ _ H1 H2 E) as X. injection X as -> ->. split; reflexivity. }
+  assert (Ist1 : forall q cq, In (q, cq) V1 -> index_stack_of m1 (v_oid cq) = Some q).
+  { intros q cq H. apply find_path_nodup; assumption. }
+  (* pairs *)
+  assert (FP : forall k t, In (k, t) P <-> eq_rel m k t) by (intros k t; apply RS).
+  assert (Pin : forall k t, eq_rel m k t -> (exists v, In (k, v) V) /\ (exists w, In (t, w) V)).
+  { intros k t (v & e & Hv & He & Hi). split; [exists v; exact Hv|]. apply find_path_some in Hi. destruct Hi as (w & Hw & _). exists w. exact Hw. }
+  assert (Pne : forall k t, eq_rel m k t -> k <> t).
+  { intros k t (v & e & Hv & He & Hi) ->. apply find_path_some in Hi. destruct Hi as (w & Hw & Ew).
+    pose proof (model_vars_fun m t v w Hv Hw) as ->. exact (W3 (t, w) e Hv He (eq_sym Ew)). }
+  assert (Ploc : forall kt, In kt P -> located m (fst kt) /\ located m (snd kt) /\ located m1 (fst kt) /\ located m1 (snd kt)).
+  { intros [k t] H. apply FP in H. destruct (Pin k t H) as [A B]. cbn. rewrite !Floc, !located_in. tauto. }
+  rewrite apply_map_pairs. fold P. fold m0. fold m1.
+  rewrite (apply_located m1 P) by (intros kt H; destruct (Ploc kt H); tauto).
+  set (D := map (fun kt => (tau m1 (fst kt), tau m1 (snd kt))) P). set (E := connect D []).
+  intros H. injection H as <- <-.
+  assert (Tau1 : forall p c, In (p, c) V1 -> tau m1 p = v_oid c) by (intros p c H; apply tau_in; exact H).
+  assert (SE : sinv E D).
+  { apply (connect_sinv D) with (E := []) (D0 := []); [|exact sinv_nil].
+    intros d Hd. apply in_map_iff in Hd. destruct Hd as ([k t] & <- & Hkt). cbn.
+    pose proof (proj1 (FP k t) Hkt) as R. destruct (Ploc (k, t) Hkt) as (_ & _ & L1 & L2). apply located_in in L1. apply located_in in L2.
+    destruct L1 as [c1 L1]. destruct L2 as [c2 L2]. cbn in L1, L2. rewrite (Tau1 _ _ L1), (Tau1 _ _ L2). intros Eo.
+    destruct (Finj _ _ _ _ L1 L2 Eo) as [X _]. exact (Pne k t R X). }
+  destruct SE as (S1 & S2 & S3).
+  assert (Din : forall p c q cq, In (p, c) V1 -> In (q, cq) V1 -> (In (v_oid c, v_oid cq) D <-> In (p, q) P)).
+  { intros p c q cq Hp Hq. unfold D. rewrite in_map_iff. split.
+    - intros ([k t] & Ekt & Hkt). cbn in Ekt. destruct (Ploc (k, t) Hkt) as (_ & _ & L1 & L2). apply located_in in L1. apply located_in in L2.
+      destruct L1 as [c1 L1]. destruct L2 as [c2 L2]. cbn in L1, L2. rewrite (Tau1 _ _ L1), (Tau1 _ _ L2) in Ekt. injection Ekt as A B.
+      destruct (Finj _ _ _ _ L1 Hp A) as [-> _]. destruct (Finj _ _ _ _ L2 Hq B) as [-> _]. exact Hkt.
+    - intros Hkt. exists (p, q). split; [cbn; rewrite (Tau1 _ _ Hp), (Tau1 _ _ Hq); reflexivity | exact Hkt]. }
+  assert (Dcl : forall o1 o2, In (o1, o2) D -> exists p c q cq, In (p, c) V1 /\ In (q, cq) V1 /\ o1 = v_oid c /\ o2 = v_oid cq /\ In (p, q) P).
+  { intros o1 o2 Hd. apply in_map_iff in Hd. destruct Hd as ([k t] & Ekt & Hkt). cbn in Ekt.
+    destruct (Ploc (k, t) Hkt) as (_ & _ & L1 & L2). apply located_in in L1. apply located_in in L2.
+    destruct L1 as [c1 L1]. destruct L2 as [c2 L2]. cbn in L1, L2. rewrite (Tau1 _ _ L1), (Tau1 _ _ L2) in Ekt. injection Ekt as <- <-.
+    exists k, c1, t, c2. repeat split; assumption. }
+  (* targets after the connection phase *)
+  assert (TE : forall p c, In (p, c) V1 -> forall o2,
+             In o2 (map e_var (es_get (v_oid c) E)) <-> exists q cq, In (q, cq) V1 /\ o2 = v_oid cq /\ eq_rel m p q).
+  { intros p c Hp o2. rewrite S1. split.
+    - intros [Hd|Hd]; destruct (Dcl _ _ Hd) as (k & c1 & t & c2 & L1 & L2 & A & B & Hkt).
+      + destruct (Finj _ _ _ _ L1 Hp (eq_sym A)) as [-> _]. exists t, c2. repeat split; [exact L2 | exact B | apply FP; exact Hkt].
+      + destruct (Finj _ _ _ _ L2 Hp (eq_sym B)) as [-> _]. exists k, c1. repeat split; [exact L1 | exact A | apply W2; apply FP; exact Hkt].
+    - intros (q & cq & Hq & -> & R). left. apply (Din p c q cq Hp Hq). apply FP. exact R. }
+  set (U := map (upd_of m m1) P).
+  set (E' := if fx_eqids fx then copy_ids m m1 em E else E).
+  assert (EE : E' = if fx_eqids fx then copies U E else E).
+  { unfold E'. destruct (fx_eqids fx); [|reflexivity]. rewrite copy_ids_pairs. fold P. apply copy_located. exact Ploc. }
+  assert (GV : forall o, map e_var (es_get o E') = map e_var (es_get o E)).
+  { intros o. rewrite EE. destruct (fx_eqids fx); [|reflexivity]. rewrite copies_get, map_map. apply map_ext. intros e. apply relabel_var. }
+  exists V1, E'. split; [|split; [exact F1|split; [exact F2|split; [|split]]]].
+  - unfold set_eqs. apply model_vars_map_f.
+  - intros p c Hp o2. rewrite GV. apply TE. exact Hp.
+  - intros o. rewrite GV. apply S2.
+  - intros p c e Hp He. rewrite EE in He. destruct (fx_eqids fx) eqn:Fq.
+    2:{ eapply S3. exact He. }
+    intros q cq v e1 Hq Ev Hv He1 Hi. rewrite copies_get in He. apply in_map_iff in He. destruct He as (e0 & <- & He0).
+    rewrite relabel_var in Ev.
+    assert (R : eq_rel m p q) by (exists v, e1; repeat split; assumption).
+    assert (HU : In (v_oid c, e_var e0, e_mapid e1, e_connid e1) U).
+    { unfold U. apply in_map_iff. exists (p, q). split; [|apply FP; exact R].
+      unfold upd_of. cbn. pose proof (proj2 (var_located_at_in m p v) Hv) as Lp. rewrite Lp.
+      apply find_path_some in Hi. destruct Hi as (w & Hw & Ew). rewrite (tau_in m q w Hw), Ew.
+      rewrite (ids_of_nodup (v_eqs v) e1 (W4 (p, v) Hv) He1). rewrite (Tau1 _ _ Hp), (Tau1 _ _ Hq), Ev. reflexivity. }
+    rewrite (relabel_ids U (v_oid c) (e_mapid e1) (e_connid e1) e0); [cbn; split; reflexivity | | right; exact HU].
+    intros a' b' Hin. unfold U in Hin. apply in_map_iff in Hin. destruct Hin as ([k t] & Eu & Hkt).
+    destruct (Ploc (k, t) Hkt) as (Lk & Lt & L1 & L2). apply located_in in L1. apply located_in in L2. apply located_in in Lk.
+    destruct L1 as [c1 L1]. destruct L2 as [c2 L2]. destruct Lk as [vk Lk]. cbn in L1, L2, Lk.
+    unfold upd_of in Eu. cbn in Eu. rewrite (proj2 (var_located_at_in m k vk) Lk) in Eu.
+    destruct (ids_of (tau m t) (v_eqs vk)) as [a0 b0] eqn:Ei. rewrite (Tau1 _ _ L1), (Tau1 _ _ L2) in Eu. injection Eu as A B -> ->.
+    destruct (Finj _ _ _ _ L1 Hp A) as [-> _]. rewrite Ev in B. destruct (Finj _ _ _ _ L2 Hq B) as [-> _].
+    pose proof (model_vars_fun m p vk v Lk Hv) as ->.
+    apply find_path_some in Hi. destruct Hi as (w & Hw & Ew). rewrite (tau_in m q w Hw), Ew in Ei.
+    rewrite (ids_of_nodup (v_eqs v) e1 (W4 (p, v) Hv) He1) in Ei. injection Ei as <- <-. split; reflexivity.
+Qed.
+
+Lemma index_stack_of_map_f f m o : (forall v, v_oid (f v) = v_oid v) ->
+  index_stack_of (map_model (fun i => i) (fun u => u) f (fun r => r) (fun c => c) m) o = index_stack_of m o.
+Proof. intros Hf. unfold index_stack_of. rewrite model_vars_map_f. apply find_path_map_f. exact Hf. Qed.
+
+Lemma clone_model_eqvs_gen fx ext n m m' n' (b : bool) :
+  fx_ext fx = true -> (b = true -> fx_eqids fx = true) -> wf_eqs m -> clone_model fx ext n m = Some (m', n') ->
+  forall x, In x (model_eqvs b m') <-> In x (model_eqvs b m).
+Proof.
+  intros Hfx Hb Hwf Hc x. pose proof Hwf as (W1 & W2 & W3 & W4).
+  destruct (clone_model_store fx ext n m m' n' Hfx Hwf Hc) as (V1 & E' & MV & F1 & F2 & TE & ND & IDS).
+  assert (Ist' : forall o, index_stack_of m' o = find_path o V1).
+  { intros o. unfold index_stack_of. rewrite MV. apply find_path_map_f. intros v. reflexivity. }
+  assert (Same : forall p, (exists c, In (p, c) V1) <-> (exists v, In (p, v) (model_vars m))).
+  { intros p. rewrite <- !in_fst_iff, F1. reflexivity. }
+  rewrite !model_eqvs_in. split.
+  - intros (p & c' & e & q & Hp & He & Hi & ->). rewrite MV in Hp. apply in_map_iff in Hp. destruct Hp as ([p0 c] & Epc & Hp).
+    unfold pv_map in Epc. cbn in Epc. injection Epc as -> <-. cbn in He.
+    rewrite Ist' in Hi. apply find_path_some in Hi. destruct Hi as (cq & Hq & Eq).
+    assert (T : In (e_var e) (map e_var (es_get (v_oid c) E'))) by (apply in_map; exact He).
+    apply (TE p c Hp) in T. destruct T as (q' & cq' & Hq' & Eq' & R).
+    assert (q' = q).
+    { rewrite <- Eq in Eq'. pose proof (NoDup_map_inj _ _ F2 _ _ Hq Hq' Eq') as X. injection X as -> _. reflexivity. }
+    subst q'. destruct R as (v & e1 & Hv & He1 & Hi1). exists p, v, e1, q. repeat split; try assumption.
+    specialize (IDS p c e Hp He). destruct b.
+    + rewrite (Hb eq_refl) in IDS. destruct (IDS q cq v e1 Hq (eq_sym Eq) Hv He1 Hi1) as [-> ->]. reflexivity.
+    + reflexivity.
+  - intros (p & v & e1 & q & Hv & He1 & Hi1 & ->).
+    destruct (proj2 (Same p) (ex_intro _ v Hv)) as [c Hp].
+    pose proof Hi1 as Hi1'. apply find_path_some in Hi1'. destruct Hi1' as (w & Hw & Ew).
+    destruct (proj2 (Same q) (ex_intro _ w Hw)) as [cq Hq].
+    assert (T : In (v_oid cq) (map e_var (es_get (v_oid c) E'))).
+    { apply (TE p c Hp). exists q, cq. repeat split; [exact Hq|]. exists v, e1. repeat split; assumption. }
+    apply in_map_iff in T. destruct T as (e & Ee & He).
+    exists p, (v_set_eqs (es_get (v_oid c) E') c), e, q. repeat split.
+    + rewrite MV. apply in_map_iff. exists (p, c). split; [reflexivity | exact Hp].
+    + exact He.
+    + rewrite Ist', Ee. apply find_path_nodup; assumption.
+    + specialize (IDS p c e Hp He). destruct b; [|reflexivity].
+      rewrite (Hb eq_refl) in IDS. destruct (IDS q cq v e1 Hq Ee Hv He1 Hi1) as [-> ->]. reflexivity.
+Qed.
+
+(* without any hypothesis on the original: every equivalence of the clone ends at a component variable of the clone *)
+Lemma add_equivalence_targets o1 o2 E a e :
+  In e (es_get a (add_equivalence o1 o2 E)) -> In e (es_get a E) \/ e_var e = o1 \/ e_var e = o2.
+Proof.
+  unfold add_equivalence.
+  set (E1 := if negb (has_eq o2 (es_get o1 E)) then es_set o1 (es_get o1 E ++ [{| e_var := o2; e_mapid := ""; e_connid := "" |}]) E else E).
+  assert (H1 : forall a e, In e (es_get a E1) -> In e (es_get a E) \/ e_var e = o2).
+  { intros a0 e0. unfold E1. destruct (negb (has_eq o2 (es_get o1 E))); [|tauto].
+    destruct (Nat.eq_dec a0 o1) as [->|Hn].
+    - rewrite es_get_set_same, in_app_iff. intros [H|[<-|[]]]; [left; exact H | right; reflexivity].
+    - rewrite es_get_set_other by exact Hn. tauto. }
+  set (E2 := if negb (has_eq o1 (es_get o2 E1)) then es_set o2 (es_get o2 E1 ++ [{| e_var := o1; e_mapid := ""; e_connid := "" |}]) E1 else E1).
+  assert (H2 : forall a e, In e (es_get a E2) -> In e (es_get a E) \/ e_var e = o1 \/ e_var e = o2).
+  { intros a0 e0. unfold E2. destruct (negb (has_eq o1 (es_get o2 E1))).
+    - destruct (Nat.eq_dec a0 o2) as [->|Hn].
+      + rewrite es_get_set_same, in_app_iff. intros [H|[<-|[]]]; [apply H1 in H; tauto | right; left; reflexivity].
+      + rewrite es_get_set_other by exact Hn. intros H. apply H1 in H. tauto.
+    - intros H. apply H1 in H. tauto. }
+  destruct (negb (has_eq o2 (es_get o1 E)) && negb (negb (has_eq o1 (es_get o2 E1)))); [|apply H2].
+  destruct (Nat.eq_dec a o1) as [->|Hn].
+  - rewrite es_get_set_same. intros H. apply H2.
+    revert H. generalize (es_get o1 E2). intros l. induction l as [|x r IH]; cbn; [intros []|].
+    destruct (Nat.eqb (e_var x) o2); [intros H; right; exact H|]. intros [<-|H]; [left; reflexivity | right; apply IH; exact H].
+  - rewrite es_get_set_other by exact Hn. apply H2.
+Qed.
+
+Lemma copy_ids_one_targets m m1 p1 p2 E a e :
+  In e (es_get a (copy_ids_one m m1 p1 p2 E)) -> exists e0, In e0 (es_get a E) /\ e_var e = e_var e0.
+Proof.
+  unfold copy_ids_one.
+  destruct (var_located_at m p1) as [| |v1]; try (intros H; exists e; split; [exact H | reflexivity]).
+  destruct (var_located_at m p2) as [| |v2]; try (intros H; exists e; split; [exact H | reflexivity]).
+  destruct (var_located_at m1 p1) as [| |c1]; try (intros H; exists e; split; [exact H | reflexivity]).
+  destruct (var_located_at m1 p2) as [| |c2]; try (intros H; exists e; split; [exact H | reflexivity]).
+  destruct (ids_of (v_oid v2) (v_eqs v1)) as [x y].
+  destruct (Nat.eq_dec a (v_oid c1)) as [->|Hn].
+  - rewrite es_get_set_same. unfold set_ids. intros H. apply in_map_iff in H. destruct H as (e0 & <- & H0). exists e0. split; [exact H0|].
+    destruct (Nat.eqb (e_var e0) (v_oid c2)); reflexivity.
+  - rewrite es_get_set_other by exact Hn. intros H. exists e. split; [exact H | reflexivity].
+Qed.
+
+Lemma clone_model_internal fx ext n m m' n' :
+  clone_model fx ext n m = Some (m', n') ->
+  forall p c e, In (p, c) (model_vars m') -> In e (v_eqs c) -> exists q cq, In (q, cq) (model_vars m') /\ e_var e = v_oid cq.
+Proof.
+  unfold clone_model.
+  destruct (clone_units_list fx (st0 (S n)) n (m_units m)) as [us s1] eqn:E1.
+  destruct (clone_comps fx s1 n (m_comps m)) as [cs s2] eqn:E2.
+  destruct (record_model fx ext m) as [em|]; [|discriminate].
+  set (m1 := fix_component_units _).
+  destruct (apply_map m1 em (Some [])) as [E|] eqn:Ea; [|discriminate]. intros H. injection H as <- <-.
+  set (V1 := model_vars m1).
+  set (Tin := fun E : estore => forall a e, In e (es_get a E) -> exists q cq, In (q, cq) V1 /\ e_var e = v_oid cq).
+  assert (TA : Tin E).
+  { rewrite apply_map_pairs in Ea. revert Ea. generalize (em_pairs em). intros P.
+    assert (G : forall E0, Tin E0 -> forall r, fold_left (fun acc kt => make_equivalence m1 (fst kt) (snd kt) acc) P (Some E0) = Some r -> Tin r).
+    { induction P as [|[k t] r0 IH]; intros E0 HT r; cbn.
+      - intros H. injection H as <-. exact HT.
+      - destruct (var_located_at m1 k) as [| |v1] eqn:L1.
+        + assert (Z : forall l, fold_left (fun acc kt => make_equivalence m1 (fst kt) (snd kt) acc) l None = None)
+            by (induction l as [|x y IHl]; cbn; [reflexivity | exact IHl]). rewrite Z. discriminate.
+        + destruct (var_located_at m1 t) as [| |v2] eqn:L2.
+          * assert (Z : forall l, fold_left (fun acc kt => make_equivalence m1 (fst kt) (snd kt) acc) l None = None)
+              by (induction l as [|x y IHl]; cbn; [reflexivity | exact IHl]). rewrite Z. discriminate.
+          * apply IH. exact HT.
+          * apply IH. exact HT.
+        + destruct (var_located_at m1 t) as [| |v2] eqn:L2.
+          * assert (Z : forall l, fold_left (fun acc kt => make_equivalence m1 (fst kt) (snd kt) acc) l None = None)
+              by (induction l as [|x y IHl]; cbn; [reflexivity | exact IHl]). rewrite Z. discriminate.
+          * apply IH. exact HT.
+          * apply IH. intros a e He. apply add_equivalence_targets in He. destruct He as [He|[He|He]].
+            -- apply HT in He. exact He.
+            -- exists k, v1. split; [apply var_located_at_in; exact L1 | exact He].
+            -- exists t, v2. split; [apply var_located_at_in; exact L2 | exact He]. }
+    apply G. intros a e []. }
+  set (E' := if fx_eqids fx then copy_ids m m1 em E else E).
+  assert (TE' : Tin E').
+  { unfold E'. destruct (fx_eqids fx); [|exact TA]. rewrite copy_ids_pairs. generalize (em_pairs em). intros P. revert TA. generalize E.
+    induction P as [|[k t] r IH]; intros E0 HT; cbn; [exact HT|]. apply IH. intros a e He.
+    apply copy_ids_one_targets in He. destruct He as (e0 & He0 & ->). eapply HT. exact He0. }
+  intros p c e Hp He. unfold set_eqs in Hp. rewrite model_vars_map_f in Hp. apply in_map_iff in Hp. destruct Hp as ([p0 c0] & Epc & Hp).
+  unfold pv_map in Epc. cbn in Epc. injection Epc as -> <-. cbn in He. apply TE' in He. destruct He as (q & cq & Hq & Eq).
+  exists q, (v_set_eqs (es_get (v_oid cq) E') cq). split; [|exact Eq].
+  unfold set_eqs. rewrite model_vars_map_f. apply in_map_iff. exists (q, cq). split; [reflexivity | exact Hq].
+Qed.
+
+(* ------------------------------------------------------------------------------------------ no parent, totality *)
+
+Lemma clone_units_parent fx n u : u_parent (fst (clone_units fx n u)) = None.
+Proof. unfold clone_units, clone_units_st. destruct (clone_imp fx (st_nx (S (nx (st0 n))) (st0 n)) (u_imp u)). reflexivity. Qed.
+
+Lemma clone_variable_parent fx n v : v_parent (fst (clone_variable fx n v)) = None.
+Proof. unfold clone_variable. destruct (v_units v) as [u|]; [destruct (clone_units fx (S n) u)|]; reflexivity. Qed.
+
+Lemma clone_reset_parent fx n r : r_parent (fst (clone_reset fx n r)) = None.
+Proof.
+  unfold clone_reset. destruct (clone_opt_variable fx (S n) (r_var r)) as [v' n1].
+  destruct (clone_opt_variable fx n1 (r_test r)) as [t' n2]. reflexivity.
+Qed.
+
+Lemma clone_component_parent fx n c : c_parent (fst (clone_component fx n c)) = None.
+Proof.
+  unfold clone_component. destruct c as [o p id name encid math imp impref vars resets kids]. rewrite clone_comp_unfold. cbv zeta.
+  destruct (clone_imp fx (st_nx (S (nx (st0 n))) (st0 n)) imp) as [imp' s1].
+  destruct (clone_variables fx (nx s1) (nx (st0 n)) vars) as [vars' n2].
+  destruct (clone_resets fx n2 (nx (st0 n)) vars vars' resets) as [resets' n3].
+  destruct (clone_comps fx (st_nx n3 s1) (nx (st0 n)) kids) as [kids' s4]. reflexivity.
+Qed.
+
+(* children of the clone are parented by the clone *)
+Lemma clone_component_children fx n c c' n' :
+  fx_isrc fx = true -> clone_component fx n c = (c', n') ->
+  Forall (fun v => v_parent v = Some (c_oid c')) (c_vars c') /\ Forall (fun r => r_parent r = Some (c_oid c')) (c_resets c') /\
+  Forall (fun k => c_parent k = Some (c_oid c')) (c_kids c').
+Proof.
+  intros Hfx. unfold clone_component. destruct c as [o p id name encid math imp impref vars resets kids]. rewrite clone_comp_unfold. cbv zeta.
+  destruct (clone_imp fx (st_nx (S (nx (st0 n))) (st0 n)) imp) as [imp' s1] eqn:E1.
+  destruct (clone_variables fx (nx s1) (nx (st0 n)) vars) as [vars' n2] eqn:E2.
+  destruct (clone_resets fx n2 (nx (st0 n)) vars vars' resets) as [resets' n3] eqn:E3.
+  destruct (clone_comps fx (st_nx n3 s1) (nx (st0 n)) kids) as [kids' s4] eqn:E4. intros H. injection H as <- <-. cbn.
+  apply (clone_imp_fresh fx n) in E1; [|exact Hfx | apply st_ok_nx; [cbn; lia | apply st_ok_st0] | cbn; lia]. destruct E1 as (Ok1 & L1 & _). cbn in L1.
+  pose proof E2 as E2'. apply clone_variables_fresh in E2; [|exact Hfx]. destruct E2 as (L2 & R2 & _ & F2).
+  apply (clone_resets_fresh fx _ _ _ n) in E3; [|exact Hfx | lia |].
+  2:{ intros w Hw. apply (rng_mono2 (nx s1) n n2 n2); [lia | lia|]. exact (proj2 (rng_flat_map _ _ var_oids vars') R2 w Hw). }
+  destruct E3 as (L3 & _ & F3).
+  apply (clone_comps_fresh fx n) in E4; [|exact Hfx | apply st_ok_nx; [lia | exact Ok1] | cbn; lia]. destruct E4 as (_ & _ & _ & F4).
+  repeat split; [|exact F3 | exact F4]. revert F2. apply Forall_impl. intros v [H _]. exact H.
+Qed.
+
+(* the repaired Model::clone never crashes *)
+Lemma clone_model_total fx ext n m : fx_ext fx = true -> exists r, clone_model fx ext n m = Some r.
+Proof.
+  intros Hfx. unfold clone_model.
+  destruct (clone_units_list fx (st0 (S n)) n (m_units m)) as [us s1] eqn:E1.
+  destruct (clone_comps fx s1 n (m_comps m)) as [cs s2] eqn:E2.
+  destruct (record_model_spec fx ext m Hfx) as (em & Er & RS). rewrite Er.
+  set (m0 := {| m_oid := n; m_id := m_id m; m_name := m_name m; m_encid := m_encid m; m_units := us; m_comps := cs |}).
+  set (m1 := fix_component_units m0).
+  pose proof (clone_comps_shape fx n (m_comps m) [] 0 s1 cs s2 E2) as (_ & Sh1 & _).
+  assert (F1 : map fst (model_vars m1) = map fst (model_vars m)).
+  { unfold m1, fix_component_units. rewrite model_vars_map_f, map_map. cbn. exact Sh1. }
+  assert (Floc : forall p, located m1 p <-> located m p).
+  { intros p. rewrite !located_in. rewrite <- !in_fst_iff, F1. reflexivity. }
+  rewrite apply_map_pairs. rewrite (apply_located m1 (em_pairs em)); [eexists; reflexivity|].
+  intros [k t] H. apply RS in H. destruct H as (v & e & Hv & He & Hi). cbn. rewrite !Floc, !located_in. split.
+  - exists v. exact Hv.
+  - apply find_path_some in Hi. destruct Hi as (w & Hw & _). exists w. exact Hw.
 Qed.
